@@ -131,11 +131,11 @@ PROPS = {
     },
     'C16': {
         'native': ['c05_', 'c06_', 'c16_'],
-        'units': ['script_btc', 'script_custom'],
+        'units': ['script_btc', 'script_custom', 'opreturn'],
         'kani_quick': [],
         'kani_thorough': [],
         'trusted': [
-            'OpReturn::on_block (the printing loop: skips empty payloads, one line per OP_RETURN output in tx/output order) uses `continue` inside `for` (rejected by this Verus) and println! -- not under contract; lane N (c16_opreturn_printed_lines) replays it on a bounded payload catalogue with stdout captured; lane V decides the payload value that loop prints',
+            'OpReturn::on_block is under contract in unit opreturn (one line per OP_RETURN output with non-empty payload text, in tx/output order, carrying height, txid, payload) through idioms I16 (`if C { continue; }` in tail position == `if !C { rest }`) and I21 (println! appends one line to an explicit ghost stdout log); the TEXT of a line is an uninterpreted function line3(format string, height, txid, payload) (format!/Display trusted; lane N c16_opreturn_printed_lines replays the real text with stdout captured)',
             'String::from_utf8 == (utf8_valid, utf8_decode), String::from_utf8_lossy == lossy_utf8: uninterpreted std functions',
             'rust-bitcoin Instructions iterator follows Bitcoin push rules (shim contract, trusted)',
         ],
